@@ -213,6 +213,22 @@ where
     T: Debug + Clone + Serialize + Send,
     S: Strategy<Value = T>,
 {
+    explore_with(ctx, part, cases, 3000, strat, f)
+}
+
+// `shrink_iters` bounds the shrinking effort (expensive oracles use a small bound)
+pub fn explore_with<T, S>(
+    ctx: &RunCtx,
+    part: &str,
+    cases: u64,
+    shrink_iters: u32,
+    strat: impl Fn() -> S + Sync,
+    f: impl Fn(&T, &mut Stats) -> Result<(), Viol> + Sync,
+) -> PartOutcome
+where
+    T: Debug + Clone + Serialize + Send,
+    S: Strategy<Value = T>,
+{
     let w = ctx.workers.max(1) as u64;
     // debugging aid: VERIF_ONLY_PART=<name> runs a single part, VERIF_CASES=<n> overrides the count
     let mut cases = cases;
@@ -250,7 +266,7 @@ where
                 let cfg = Config {
                     cases: my_cases as u32,
                     failure_persistence: None,
-                    max_shrink_iters: 3000,
+                    max_shrink_iters: shrink_iters,
                     max_global_rejects: 1 << 20,
                     rng_algorithm: RngAlgorithm::ChaCha,
                     rng_seed: RngSeed::Fixed(ctx.seed),
